@@ -28,6 +28,7 @@
 (*    "unsupported": the specification says nothing about them.            *)
 (***************************************************************************)
 EXTENDS Words, FiniteSets
+LOCAL INSTANCE SequencesExt     \* CommunityModules: FoldLeftDomain
 
 CONSTANTS MemCap,        \* bytes; memory may not grow beyond this (multiple of 32)
           StackLimit     \* 1024 (Yellow Paper 9.1); smaller in MC_EVM
@@ -132,9 +133,24 @@ InstrStartsR(code, i, acc) ==
        InstrStartsR(code, IF IsPush(op) THEN i + (op - OpPUSH1) + 2 ELSE i + 1, acc \cup {i})
 InstrStarts(code) == InstrStartsR(code, 0, {})
 
+(* The same two sets by ONE left-to-right pass (SequencesExt!FoldLeftDomain, which TLC evaluates    *)
+(* without recursion): real programs have thousands of instructions and the recursive definitions *)
+(* above would need a stack frame per instruction.  MC_EVM checks that both formulations agree on  *)
+(* every program it explores (invariant ScanAgrees).                                               *)
+ScanStep(code, acc, i) ==        \* i = 1-based index of the byte at position i - 1
+  IF i - 1 < acc.next THEN acc   \* a data byte of the preceding PUSH
+  ELSE LET op == code[i] IN
+       [next   |-> i - 1 + (IF IsPush(op) THEN (op - OpPUSH1) + 2 ELSE 1),
+        jd     |-> IF op = OpJUMPDEST THEN Append(acc.jd, i - 1) ELSE acc.jd,
+        starts |-> Append(acc.starts, i - 1)]
+Scan(code) == FoldLeftDomain(LAMBDA acc, i : ScanStep(code, acc, i),
+                             [next |-> 0, jd |-> <<>>, starts |-> <<>>], code)
+SeqToSet(s) == {s[i] : i \in 1..Len(s)}
+
 MkProg(code, calldata, static) ==
-  [code |-> code, calldata |-> calldata, static |-> static, jd |-> JumpDests(code),
-   starts |-> InstrStarts(code)]
+  LET sc == Scan(code) IN
+  [code |-> code, calldata |-> calldata, static |-> static, jd |-> SeqToSet(sc.jd),
+   starts |-> SeqToSet(sc.starts)]
 
 -----------------------------------------------------------------------------
 (* Machine state *)
@@ -360,6 +376,8 @@ StackBound  == Len(mach.stack) <= StackLimit
 \* the program counter is never inside the data of a PUSH
 PcOnInstr   == Running(mach) => (mach.pc >= Len(prog.code) \/ mach.pc \in prog.starts)
 JumpDestsOK == prog.jd = {i \in prog.starts : prog.code[i + 1] = OpJUMPDEST}
+\* the one-pass analysis used for long programs equals the Yellow Paper's recursive definition
+ScanAgrees  == prog.jd = JumpDests(prog.code) /\ prog.starts = InstrStarts(prog.code)
 MemBound    == mach.msize <= MemCap /\ mach.msize % 32 = 0
                /\ \A w \in DOMAIN mach.mem : (w + 1) * 32 <= mach.msize
 OutputOnlyAtEnd == (mach.status \notin {"return", "revert"}) => mach.output = <<>>
